@@ -837,7 +837,23 @@ def c09_15(ctx):
 
 
 
+def c09_16(ctx):
+    """every standard scriptPubKey, whatever its hash / program bytes, parses to its template class (and so has an address): rule shared with C04.17"""
+    from rules.C04 import c04_17
+    return c04_17(ctx)
+
+
+
+def c09_17(ctx):
+    """Base58Check extended keys: every SLIP-132 prefix decodes and re-encodes to the same string (rule shared with C08.19)"""
+    from rules.C08 import c08_19
+    return c08_19(ctx)
+
+
+
 OBLIGATIONS = [
+    ("C09.17", "CELLS extended key strings (shared C08.19)", c09_17),
+    ("C09.16", "CELLS opaque template bytes (shared C04.17)", c09_16),
     ("C09.15", "CELLS base58check", c09_15),
     ("C09.14", "CELLS bech32", c09_14),
     ("C09.13", "SHARED", c09_13),
